@@ -203,3 +203,57 @@ Example judge_rejects_not_deduplicated : judge [([1], 1, Ok 0); ([1], 1, Ok 1)] 
 Proof. vm_compute. reflexivity. Qed.
 Example judge_rejects_oversized_pool : judge [([1], 1, Ok 0); ([7; 7], 2, Ok 2)] [1; 0; 7; 7; 0; 0; 0; 0] 8 2 1 = false.
 Proof. vm_compute. reflexivity. Qed.
+
+(* ---- completeness: the judge rejects ONLY transcripts that violate a clause (judge = true <-> Judged) *)
+Lemma exists_has_size tr z d off : In (d, z, Ok off) tr -> existsb (has_size z) tr = true.
+Proof. intros H. apply existsb_exists. exists (d, z, Ok off). split; auto. simpl. apply Z.eqb_refl. Qed.
+
+Lemma no_ok_rev tr : (forall d s off, ~ In (d, s, Ok off) tr) -> negb (existsb is_ok tr) = true.
+Proof.
+  intros N. apply negb_true_iff. destruct (existsb is_ok tr) eqn:E; auto.
+  apply existsb_exists in E. destruct E as (((d & s) & r) & Hin & E). destruct r as [off|]; [|discriminate].
+  exfalso. eapply N; eauto.
+Qed.
+
+Theorem judge_complete tr img sz al mn : Judged tr img sz al mn -> judge tr img sz al mn = true.
+Proof.
+  intros (J1 & J2 & J3 & J4 & J5 & J6 & J7 & J8).
+  unfold judge. rewrite !andb_true_iff. split; [split; [split; [split; [split; [split|]|]|]|]|].
+  - apply Z.leb_le. exact J8.
+  - apply forallb_forall. intros ((d & s) & r) Hin. destruct r as [off|]; simpl.
+    + destruct (J1 d s off Hin) as (V & A & B & C & D & E & F).
+      rewrite !andb_true_iff. repeat split.
+      * apply valid_sizeb_spec; auto.
+      * apply Z.leb_le; auto.
+      * apply Z.eqb_eq; auto.
+      * apply Z.leb_le; auto.
+      * apply Z.leb_le; auto.
+      * apply Z.eqb_eq; auto.
+      * apply bytes_eqb_spec; auto.
+    + apply negb_true_iff. destruct (valid_sizeb s) eqn:V; auto. apply valid_sizeb_spec in V. exfalso. apply (J2 d s Hin V).
+  - apply forallb_forall. intros ((d1 & s1) & r1) I1. apply forallb_forall. intros ((d2 & s2) & r2) I2.
+    destruct r1 as [o1|], r2 as [o2|]; simpl; auto.
+    destruct ((s1 =? s2) && bytes_eqb (slice d1 0 s1) (slice d2 0 s2)) eqn:C; simpl; auto.
+    apply andb_prop in C. destruct C as (C1 & C2). apply Z.eqb_eq in C1. subst s2. apply bytes_eqb_spec in C2.
+    apply Z.eqb_eq. eapply J3; eauto.
+  - apply Z.eqb_eq; auto.
+  - apply forallb_forall. intros i Hi. apply in_seq in Hi.
+    destruct (existsb (covers_pos (Z.of_nat i)) tr) eqn:C; simpl; auto.
+    apply Z.eqb_eq. rewrite <- (Nat2Z.id i) at 1. apply J5; [lia|].
+    intros d s off Hin R.
+    assert (existsb (covers_pos (Z.of_nat i)) tr = true); [|congruence].
+    apply existsb_exists. exists (d, s, Ok off). split; auto. simpl. apply andb_true_iff. split; [apply Z.leb_le|apply Z.ltb_lt]; lia.
+  - apply orb_true_iff. destruct J6 as [(d & off & H)|(-> & N)].
+    + left. eapply exists_has_size; eauto.
+    + right. simpl. apply no_ok_rev; auto.
+  - apply orb_true_iff. destruct J7 as [((d & off & H) & Dv & Rg)|(-> & N)].
+    + left. rewrite !andb_true_iff. repeat split.
+      * eapply exists_has_size; eauto.
+      * apply Z.eqb_eq; auto.
+      * apply Z.ltb_lt; lia.
+      * apply Z.leb_le; lia.
+    + right. simpl. apply no_ok_rev; auto.
+Qed.
+
+Theorem judge_iff tr img sz al mn : judge tr img sz al mn = true <-> Judged tr img sz al mn.
+Proof. split; [apply judge_sound|apply judge_complete]. Qed.
